@@ -114,7 +114,10 @@ Definition sub_bal (p : pair) (t : Z) (a : Z) : result pair :=
 
 Definition lp_of (p : pair) (a : Z) : Z := aget (p_lp p) a.
 Definition lp_credit (p : pair) (a amt : Z) : pair := set_lp p (aset (p_lp p) a (lp_of p a + amt)).
+(** the pair contract never spends the LP it holds itself (no code path does), so a debit of SELF
+    is not an operation of the system *)
 Definition lp_debit (p : pair) (a amt : Z) : result pair :=
+  check negb (a =? SELF) else EGuard;
   do b <- sub_chk (lp_of p a) amt;
   Ok (set_lp p (aset (p_lp p) a b)).
 
@@ -357,7 +360,7 @@ Definition ep_remove_buyback (p : pair) (c lp tok : Z) : result (pair * outs * e
 
 Definition ep_set_fee (p : pair) (c f sf : Z) : result (pair * outs * effects) :=
   check has_owner_perm c else EPerm;
-  check (sf <=? f) && (f <=? PAIR_MAX_FEE_PERCENTAGE) else EGuard;
+  check (0 <=? sf) && (sf <=? f) && (f <=? PAIR_MAX_FEE_PERCENTAGE) else EGuard;
   Ok (set_fees p f sf, [], no_eff).
 
 Definition ep_set_fee_on (p : pair) (c : Z) (en : bool) (a tok : Z) : result (pair * outs * effects) :=
